@@ -60,12 +60,28 @@ def script(seed):
             d = datagram(rng, port)
             if dup is not None and rng.random() < 0.3:
                 d = dup                                   # duplicate answer
-            elif dup is not None and rng.random() < 0.3 and dup.count(b",") >= 3:
-                parts = dup.split(b",")                   # a second console of the same system: same id, other address/serial
-                parts[0] = parts[0] + b"1"
-                parts[1] = parts[1][::-1] + b"7"
+            elif dup is not None and rng.random() < 0.45 and dup.count(b",") >= 3:
+                # an answer that differs from the previous one in a single field (a console reachable under
+                # two addresses, a replaced console keeping its name, two consoles of one system ...) or in
+                # address and serial: each of them is a different datagram and yields its own entry
+                parts = dup.split(b",")
+                which = rng.choice(["host", "host", "serial", "id", "name", "host+serial"])
+                if "host" in which:
+                    parts[0] = parts[0] + b"1"
+                if "serial" in which:
+                    parts[1] = parts[1][::-1] + b"7"
+                if which == "id":
+                    parts[3] = parts[3][::-1] + b"3"
+                if which == "name":
+                    if len(parts) > 4:
+                        parts[4] = parts[4] + b" 2"
+                    else:
+                        parts[0] = parts[0] + b"2"
                 d = b",".join(parts)
+                if rng.random() < 0.6:                    # within the same interval as the one it resembles
+                    t = last_t
             dup = d
+            last_t = t
             events.append((t, port, d))
     events.sort(key=lambda x: x[0])
     for t, port, d in events:
